@@ -89,7 +89,7 @@ def run_once_e3(cfg: E3Config, chooser: Chooser, *, world_hook=None, around_run=
     storage = MemStorage()
     idx = node_of_key(spec)
     ref = reference(spec, [i for i, _ in base.requested], precached=base.precached, faults=base.faults,
-                    died=base.died, bust_cache=base.bust_cache, context=ctx, pre_context=ctx)
+                    died=base.died, bust_cache=base.bust_cache, context=ctx, pre_context=ctx, corrupt=base.corrupt)
     gt: list = []
     eff_workers = cfg.max_workers if cfg.max_workers is not None else cfg.cpu_count
     world = VWorld(chooser, cpu_count=cfg.cpu_count, log_mode=cfg.log_mode,
@@ -195,7 +195,7 @@ def run_once_e3(cfg: E3Config, chooser: Chooser, *, world_hook=None, around_run=
         world_hook(world)
     orig_rol = lt_process.run_or_load_task
     try:
-        precache(storage, spec, built, base.precached, ctx)
+        precache(storage, spec, built, base.precached, ctx, corrupt=base.corrupt)
         if storage_hook is not None:
             storage_hook(storage, built)
         U.WORLD.reset(epoch=1, faults=[spec.labels[i] for i in base.faults], fault_exc=base.fault_exc,
